@@ -791,6 +791,8 @@ pub struct Env<'a> {
   pub emu_collapse: bool,
   /// emulate hypothesised defect D3 (regex candidates restricted to the leading literal run)
   pub emu_prefix: bool,
+  /// D2 emulation may also be applied to regex nodes (false once a collapse-proof probe showed it is not observable)
+  pub emu_collapse_regex: bool,
 }
 
 fn tok_match(env: &Env, q: &str, toks: &BTreeSet<String>) -> T {
@@ -1061,7 +1063,7 @@ pub fn eval_expansion(env: &Env, q: &Q, d: &DocView) -> T {
     Q::Regex { field, re } => {
       let Some((asis, low)) = expansion_tokens(env, field, d) else { return FF };
       if env.sch.is_text(field) {
-        match effective_regex_pattern(env.sch, env.an, field, re, env.emu_collapse) {
+        match effective_regex_pattern(env.sch, env.an, field, re, env.emu_collapse && env.emu_collapse_regex) {
           EffPat::Ambiguous => T { lo: false, hi: !asis.is_empty() },
           EffPat::Literal(s) => T::b(asis.iter().any(|t| *t == s)),
           EffPat::Re(r) => {
